@@ -87,4 +87,4 @@ def body(case):
 
 
 def tests(tier):
-    return [TestSpec("never-raises", gen_case, body, {"quick": 5000, "thorough": 500000}, tape=2048)]
+    return [TestSpec("never-raises", gen_case, body, {"quick": 5000, "thorough": 500000}, tape=2048, fuzz={"thorough": 60000})]
